@@ -64,7 +64,7 @@ if __name__ == '__main__':
     import C14ref
     e1check.run(dict(
         prop='C14', model='stop', harness='e1/stop.cpp', bin='e1_stop', gen=gen, nontrivial=nontrivial, stats=stats,
-        quick=1200, thorough=30000, extra=5000,
+        quick=3000, thorough=120000, extra=8000,
         extra_check=C14ref.run,
         rule='(a) random programs (2-4 logical threads on plain OS threads or pika tasks, 2-6 operations each over request_stop / stop_callback construction / destruction / stop_requested+stop_possible query / stop_source copy+destroy, 2-6 callbacks whose bodies deregister themselves or others, register further callbacks or call request_stop) on one stop state under PRNG schedules (uniform / priority / sticky); non-trivial = request_stop dequeued a registered callback or a CAS on the state word failed; distinct = distinct (program, schedule seed) text. (b) random sequential histories of stop_source / stop_token special members, compared line by line with the Lean model',
         corr_name='E1 log of harness/e1/stop.cpp accepted by Lean model Stop; E0 outputs of harness/e0/stopref.cpp equal to Lean model StopRef',
